@@ -179,7 +179,8 @@ PROPS = {
         suites=[suite_h.run_history, suite_h.run_genrandom],
         rule=("suite O-history: sequences of three look-alike models (equal-comparing but different, same names in other "
               "positions) through the nine read-only operations and FMMetrics on re-used operation objects; each result "
-              "compared with a fresh object's and with the model, deep dump of the model before/after. suite O-genrandom: "
+              "compared with a fresh object's, with the result obtained for that model alone in a freshly forked process that has "
+              "analysed nothing before (harness/pristine.py), and with the model; deep dump of the model before/after. suite O-genrandom: "
               "GenerateRandomAttribute with element / integer-range / float-range / exponent-notation / mixed domains, "
               "only-leaf on and off, features that already carry the attribute; the draws of random.choice/uniform/randint "
               "are recorded and replayed into [gen_random_attribute]; the whole resulting model is compared. oracle from the "
